@@ -250,6 +250,12 @@ def flat_oracle(meta, impl):
     """demands of the property text on the implementation alone, for tagged flat cases; returns (sig, text) or None"""
     tag = meta["tag"]
     acc = impl.startswith("accept")
+    if tag.startswith("trailing:"):
+        if acc and meta["must_reject"]:
+            return ("strict:value:%s-after-%s-value-accepted" % (tag[len("trailing:"):], {"B": "bool", "I": "int", "R": "real", "S": "string", "U": "size_t", "L": "long",
+                    "V": "real-list", "J": "int-list", "N": "fixed-list", "T": "tuple", "Y": "tuple-list", "W": "string-list"}[meta["vkind"][0]]),
+                    "the configuration %r is accepted: the text after the value of the %s keyword is silently dropped" % (meta["conf"], meta["vkind"]))
+        return None
     if acc and tag != "bytes":
         firsts = [l.strip(b" \t").lower().split()[:1] for l in meta["conf"].split(b"\n")]
         for it in meta["schema"].split(","):
@@ -526,6 +532,14 @@ MODULE_WITNESSES = [
     ("ok", 4, "units real\n" + DZ % ("atomNumbers 1", "0.25"), True, "reference (units real)"),
     ("ok", 4, "UNITS Real\n" + DZ % ("atomNumbers 1", "0.25"), True, "reference (units, letter case)"),
     ("strict:module:unknown-units-accepted", 4, "units furlongs\n" + DZ % ("atomNumbers 1", "0.25"), False, "`units furlongs` is accepted"),
+    # text after a complete BOOLEAN value (a junk word, a second flag with its value)
+    ("strict:value:junk-word-after-bool-value-accepted", 4, (DZ % ("atomNumbers 1", "0.25")).replace("  width 0.5\n", "  width 0.5\n  outputAppliedForce on junk\n"), False,
+     "`outputAppliedForce on junk`"),
+    ("strict:value:keyword-and-value-after-bool-value-accepted", 4, (DZ % ("atomNumbers 1", "0.25")).replace("  width 0.5\n", "  width 0.5\n  outputValue off outputAppliedForce on\n"), False,
+     "two flags on one line: `outputValue off outputAppliedForce on`"),
+    ("strict:value:junk-word-after-bool-value-accepted", 4, (DZ % ("atomNumbers 1", "0.25")).replace("  forceConstant 4.0\n", "  forceConstant 4.0\n  outputEnergy yes please\n"), False,
+     "`outputEnergy yes please` in a bias block"),
+    ("ok", 4, (DZ % ("atomNumbers 1", "0.25")).replace("  width 0.5\n", "  width 0.5\n  outputAppliedForce { on }\n"), True, "reference (`outputAppliedForce { on }`)"),
     # text that is neither a keyword nor a value must be an error, wherever it is on the line
     ("strict:module:text-after-brace-accepted", 4, (DZ % ("atomNumbers 1", "0.25")).replace("      atomNumbers 1\n    }", "      atomNumbers 1\n    } junk"), False,
      "`} junk` after the closing brace of an atom group"),
@@ -1093,6 +1107,9 @@ def check(run):
                                   "data": b"", "delim": b""}))
     ncorpus = len(cases)
     cases += gen_unit_cases(r, 2500 if quick else 60000, tc)
+    # text after a complete value, for EVERY value kind and family (deterministic coverage, every run)
+    for sch, cconf, kd, fam, must in G.gen_trailing_cases(r):
+        cases.append(("PF 1 %s %s" % (sch, G.hx(cconf)), {"kind": "PF", "tag": "trailing:" + fam, "schema": sch, "conf": cconf, "vkind": kd, "must_reject": must}))
     lines = [c for c, _ in cases]
     rc1, impl, e1 = V.run_lines(unit, lines, timeout=900, cwd=V.scratch("C09unit"))
     rc2, mod, e2 = V.run_lines(model, lines, timeout=1800)
